@@ -242,6 +242,30 @@ class Report:
         return os.path.relpath(path, VERIF)
 
 
+def regress_files(prop):
+    """Saved minimal reproductions of earlier findings (regress/<ID>/*.json):
+    a seconds-long replay tier executed at the start of every run."""
+    d = os.path.join(VERIF, "regress", prop)
+    if not os.path.isdir(d):
+        return []
+    out = []
+    for f in sorted(os.listdir(d)):
+        if f.endswith(".json"):
+            with open(os.path.join(d, f)) as fh:
+                out.append(json.load(fh))
+    return out
+
+
+def run_regress(rep, check_witness):
+    """check_witness(data) -> [(bucket, witness, detail, kind)]"""
+    files = regress_files(rep.prop)
+    for data in files:
+        rep.evaluations += 1
+        for bucket, w, detail, kind in check_witness(data):
+            rep.add_violation(bucket, w, detail, kind=kind)
+    rep.extra["regress_witnesses_replayed"] = len(files)
+
+
 def _size(w):
     try:
         return len(json.dumps(w, default=str)) + (sum(v for v in w.values() if isinstance(v, int)) if isinstance(w, dict) else 0)
